@@ -22,3 +22,8 @@ CHECKS["C03"] = ("fault_enumeration",
   "Every tree up to the node bound, with every script assignment and every single fault point (the k-th lifecycle event fails, whatever its phase) is run through Configuration::run and compared with an independent reference interpreter on the complete init/require/execute/evaluate trace, the returned error, the registry depth and every caller-visible state (markers incl. shadowed ones, counter, Iterations). Larger random trees with shrinking extend this beyond the bound.",
   "Trusts the reference interpreter (about 150 lines) and the thread-local tracing components; only single faults are injected; conditions are scripted leaf conditions (And/Or/Not are C10's subject).",
   "DESIGN.md §6 C03")
+CHECKS["C09"] = ("exploration",
+  "exhaustive special-value grid (all triples) + proptest random bit patterns against numeric-order, algebraic-law and Pareto-dominance oracles",
+  "All triples over a 26-value grid of special floats (zeros, subnormals, extremes, infinities, four NaN payloads) and random bit patterns are pushed through construction, every comparison operator, sort/min/max and every arithmetic operator; vectors up to length 2 (3 thorough) over a 9-value grid through both multi-objective constructors and the partial order, compared with an independent Pareto reference. The operator non-closure is a listed known finding (8 signatures, each only for the raw IEEE result).",
+  "Scalars for * and / are finite. Known findings C09 <Op> yields NaN/-inf are suppressed only when the result equals the plain f64 arithmetic result.",
+  "DESIGN.md §6 C09")
